@@ -329,3 +329,6 @@ H("C15", "text/hyphen", "VxH_C15_hyphen_shared", reach=["hyphenated", "has-break
 H("C11", "html/layout", "VxH_C11_lines", mode="real", reach=["laid-out", "wrapped", "preserved-line-feed"], bounds="one paragraph of 3..5 words (plain, with a preserved line feed under pre-line, with a padded span under normal and pre-line, nowrap; thorough: rtl) x text-align left/right/center x container width a symbolic real in [10, 200] px; font model: every rune a 10px em square, breaks after spaces only (text.VxAhem stands in for the Pango / go-text engines)", quick={"maxsteps": 200000000, "shards": 6})
 for _p in ("C12", "C02"):
     H(_p, "html/layout", "VxH_C12_paragraph", mode="real", reach=["laid-out", "paragraph-split", "conforming-break-exists"], bounds="one paragraph of 3..5 (thorough 6) one-word lines of 10px, orphans and widows in 1..3, page height a symbolic real in [15, 75] px; font model text.VxAhem", quick={"maxsteps": 200000000, "shards": 6})
+H("C14", "html/document", "VxH_C14_write", mode="real", reach=["rendered", "written", "dangling-link"], bounds="three 10px sections on 100px pages, each with id A / B / none, the second and third optionally starting a new page, two <a> elements with href in {#A, #B, #missing, external} (quick: the third section A / none, the second link #A / #missing); zoom a symbolic real in [0.25, 4]; Render + Write on a recording backend.Document", quick={"maxsteps": 300000000, "time": "800s", "shards": 8})
+H("C07", "css/validation", "VxH_C07_font", reach=["validated", "accepted"], bounds="font shorthand value of 0..3 (thorough 4) tokens over 14 kinds (style / weight / stretch / family keywords, 12px, 50%, 2, '/', ',', a string)", quick={"shards": 4})
+H("C07", "html/tree", "VxH_C07_page_selectors", reach=["parsed", "accepted"], bounds="@page prelude of 0..3 (thorough 4) tokens over identifiers, ':', ',', white space, nth() with 10 argument lists, another function, a number, a hash", quick={"shards": 4})
